@@ -17,7 +17,8 @@ EXPLANATION = (
     " ADDED LATER: R8 the label pass visits every statement (T2); R3 also checks on the MIR that the scope search goes on after a miss."
     " ROUNDS 5-6: R3-DECLARE-INNERMOST also: the scope that receives a declared label is obtained through last_mut only (backward slice); R3-RESOLUTION-ID by role."
     " ROUND 7: C06.R7-ERRORS-MERGED is shared (E400/E420 of a later part of an if surface only if the resolver merges the errors of all parts)."
-    " ROUND 8: C06.R8-COMBINERS-KEEP-BOTH is shared: E400/E420 planted in functions reach the user only if the join of the constants pass and the functions pass keeps both error lists.")
+    " ROUND 8: C06.R8-COMBINERS-KEEP-BOTH is shared: E400/E420 planted in functions reach the user only if the join of the constants pass and the functions pass keeps both error lists."
+    " ROUND 9: R8-COMBINERS-KEEP-BOTH also covers the 3- and 4-tuple: one `.resolve()?` on nested pairs, so that the errors of a function's parameters do not hide the E400/E420 of its body.")
 
 LR = "alpha::scoper::label_references::"
 AN = LR + "Analyzer::"
